@@ -1,0 +1,15 @@
+//go:build verif
+
+package fr
+
+// Portable (non-assembly) implementations, exposed for differential checks.
+
+func VerifMulGeneric(z, x, y *Element)    { _mulGeneric(z, x, y) }
+func VerifFromMontGeneric(z *Element)     { _fromMontGeneric(z) }
+func VerifAddGeneric(z, x, y *Element)    { _addGeneric(z, x, y) }
+func VerifDoubleGeneric(z, x *Element)    { _doubleGeneric(z, x) }
+func VerifSubGeneric(z, x, y *Element)    { _subGeneric(z, x, y) }
+func VerifNegGeneric(z, x *Element)       { _negGeneric(z, x) }
+func VerifReduceGeneric(z *Element)       { _reduceGeneric(z) }
+func VerifButterflyGeneric(a, b *Element) { _butterflyGeneric(a, b) }
+func VerifMulByConstant(z *Element, c uint8) { mulByConstant(z, c) }
